@@ -580,6 +580,8 @@ class DBusObject :
                 v = getattr(self, p.attr_name)
                 if p.iprop.sig in marshal.variantClassMap:
                     v = marshal.variantClassMap[p.iprop.sig](v)
+                elif p.iprop.sig == 's' and isinstance(v, str):
+                    v = str(v)
                 r[p.pname] = v
 
         if interfaceName:
@@ -612,6 +614,10 @@ class DBusObject :
 
         if p.iprop.sig in marshal.variantClassMap:
             return marshal.variantClassMap[p.iprop.sig](v)
+        elif p.iprop.sig == 's' and isinstance(v, str):
+            # a str subclass carrying its own dbusSignature (ObjectPath,
+            # Signature) would otherwise be sent as that type
+            return str(v)
         else:
             return v
 
